@@ -275,6 +275,7 @@ func TestReplay(t *testing.T) {
 		}
 		sort.Strings(files)
 		for _, path := range files {
+			fmt.Printf("REPLAY-START property=%s file=%s\n", id, path)
 			var probe struct {
 				Goroutines int `json:"goroutines"`
 			}
